@@ -8,61 +8,73 @@ package ro
 
 //@ func Merge
 //@   props C04 C05
+//@   binds sources
 //@   track call.ANY callfn.ANY
 //@   ensures [is-MergeAll-over-the-sources-in-order|C04,C05] trace(call.MergeAll(), call.Just(old(sources)), callfn.ANY(res(call.Just)))
 
 //@ func Concat
 //@   props C04 C05 C15
+//@   binds obs
 //@   track call.ANY callfn.ANY
 //@   ensures [is-ConcatAll-over-the-sources-in-order|C04,C05,C15] trace(call.ConcatAll(), call.Just(old(obs)), callfn.ANY(res(call.Just)))
 
 //@ func Zip
 //@   props C04 C05
+//@   binds sources
 //@   track call.ANY callfn.ANY
 //@   ensures [is-ZipAll-over-the-sources-in-order|C04,C05] trace(call.ZipAll(), call.Just(old(sources)), callfn.ANY(res(call.Just)))
 
 //@ func CombineLatestAny
 //@   props C04 C05
+//@   binds sources
 //@   track call.ANY callfn.ANY
 //@   ensures [is-CombineLatestAllAny-over-the-sources-in-order|C04,C05] trace(call.CombineLatestAllAny(), call.Just(old(sources)), callfn.ANY(res(call.Just)))
 
 //@ func MergeWith1$1
 //@   props C04 C05
+//@   binds obsA obsB
 //@   track call.ANY callfn.ANY
 //@   ensures [merges-the-source-first-then-the-argument|C04,C05] trace(call.MergeAll(), call.Just(elems(obsA, obsB)), callfn.ANY(res(call.Just)))
 
 //@ func MergeWith2$1
 //@   props C04 C05
+//@   binds obsA obsB obsC
 //@   track call.ANY callfn.ANY
 //@   ensures [merges-the-source-first-then-the-arguments-in-order|C04,C05] trace(call.MergeAll(), call.Just(elems(obsA, obsB, obsC)), callfn.ANY(res(call.Just)))
 
 //@ func MergeWith3$1
 //@   props C04 C05
+//@   binds obsA obsB obsC obsD
 //@   track call.ANY callfn.ANY
 //@   ensures [merges-the-source-first-then-the-arguments-in-order|C04,C05] trace(call.MergeAll(), call.Just(elems(obsA, obsB, obsC, obsD)), callfn.ANY(res(call.Just)))
 
 //@ func MergeWith4$1
 //@   props C04 C05
+//@   binds obsA obsB obsC obsD obsE
 //@   track call.ANY callfn.ANY
 //@   ensures [merges-the-source-first-then-the-arguments-in-order|C04,C05] trace(call.MergeAll(), call.Just(elems(obsA, obsB, obsC, obsD, obsE)), callfn.ANY(res(call.Just)))
 
 //@ func MergeWith5$1
 //@   props C04 C05
+//@   binds obsA obsB obsC obsD obsE obsF
 //@   track call.ANY callfn.ANY
 //@   ensures [merges-the-source-first-then-the-arguments-in-order|C04,C05] trace(call.MergeAll(), call.Just(elems(obsA, obsB, obsC, obsD, obsE, obsF)), callfn.ANY(res(call.Just)))
 
 //@ func ConcatWith$1
 //@   props C04 C05 C15
+//@   binds source obs
 //@   track call.ConcatAll call.Just callfn.ANY
 //@   ensures [concatenates-the-source-first-then-the-arguments-in-order|C04,C05,C15] trace(call.ConcatAll(), call.Just(_), callfn.ANY(res(call.Just))) && len(arg(call.Just, 0)) == len(obs) + 1 && arg(call.Just, 0)[0] == source && forall(j, 0, len(obs), arg(call.Just, 0)[j + 1] == obs[j])
 
 //@ func MergeWith$1
 //@   props C04 C05
+//@   binds obsA observables
 //@   track call.MergeAll call.Just callfn.ANY
 //@   ensures [merges-the-source-first-then-the-arguments-in-order|C04,C05] trace(call.MergeAll(), call.Just(_), callfn.ANY(res(call.Just))) && len(arg(call.Just, 0)) == len(observables) + 1 && arg(call.Just, 0)[0] == obsA
 
 //@ func Race
 //@   props C04 C05
+//@   binds sources
 //@   track call.ANY callfn.ANY
 //@   ensures [no-source-is-empty|C04,C05] len(sources) == 0 ==> trace(call.Empty())
 //@   ensures [first-source-races-the-others|C04,C05] len(sources) > 0 ==> trace(call.RaceWith(_), callfn.ANY(old(sources)[0])) && len(arg(call.RaceWith, 0)) == len(sources) - 1 && forall(j, 0, len(sources) - 1, arg(call.RaceWith, 0)[j] == old(sources)[j + 1])
@@ -74,73 +86,87 @@ package ro
 
 //@ func DefaultIfEmpty
 //@   props C04 C09
+//@   binds defaultValue
 //@   track call.DefaultIfEmptyWithContext
 //@   ensures [default-value-with-a-background-context|C04,C09] trace(call.DefaultIfEmptyWithContext(_, defaultValue)) && arg(call.DefaultIfEmptyWithContext, 0) != nil
 
 //@ func ObserveOn
 //@   props C04 C08
+//@   binds bufferSize
 //@   maypanic
 //@   track call.detachOn
 //@   ensures [detaches-downstream-only|C08] !panics ==> trace(call.detachOn(bufferSize, false, true)) && bufferSize > 0
 
 //@ func SubscribeOn
 //@   props C04 C08
+//@   binds bufferSize
 //@   maypanic
 //@   track call.detachOn
 //@   ensures [detaches-upstream-only|C08] !panics ==> trace(call.detachOn(bufferSize, true, false)) && bufferSize > 0
 
 //@ func BufferWithTime
 //@   props C04 C16
+//@   binds duration
 //@   maypanic
 //@   track call.BufferWhen call.Interval
 //@   ensures [buffers-between-ticks-of-the-duration|C16] !panics ==> trace(call.Interval(duration), call.BufferWhen(res(call.Interval))) && duration > 0
 
 //@ func SampleTime
 //@   props C04 C16
+//@   binds interval
 //@   track call.SampleWhen call.Interval
 //@   ensures [samples-at-ticks-of-the-interval|C16] trace(call.Interval(interval), call.SampleWhen(res(call.Interval)))
 
 //@ func Zip2
 //@   props C04 C05
+//@   binds obsA obsB
 //@   track call.ANY callfn.ANY
 //@   ensures [zips-A-with-B|C04,C05] trace(call.ZipWith1(obsB), callfn.ANY(obsA))
 
 //@ func CombineLatest2
 //@   props C04 C05
+//@   binds obsA obsB
 //@   track call.ANY callfn.ANY
 //@   ensures [combines-A-with-B|C04,C05] trace(call.CombineLatestWith1(obsB), callfn.ANY(obsA))
 
 //@ func Zip3
 //@   props C04 C05
+//@   binds obsA obsB obsC
 //@   track call.ANY callfn.ANY
 //@   ensures [zips-A-with-the-others-in-order|C04,C05] trace(call.ZipWith2(obsB, obsC), callfn.ANY(obsA))
 
 //@ func Zip4
 //@   props C04 C05
+//@   binds obsA obsB obsC obsD
 //@   track call.ANY callfn.ANY
 //@   ensures [zips-A-with-the-others-in-order|C04,C05] trace(call.ZipWith3(obsB, obsC, obsD), callfn.ANY(obsA))
 
 //@ func Zip5
 //@   props C04 C05
+//@   binds obsA obsB obsC obsD obsE
 //@   track call.ANY callfn.ANY
 //@   ensures [zips-A-with-the-others-in-order|C04,C05] trace(call.ZipWith4(obsB, obsC, obsD, obsE), callfn.ANY(obsA))
 
 //@ func Zip6
 //@   props C04 C05
+//@   binds obsA obsB obsC obsD obsE obsF
 //@   track call.ANY callfn.ANY
 //@   ensures [zips-A-with-the-others-in-order|C04,C05] trace(call.ZipWith5(obsB, obsC, obsD, obsE, obsF), callfn.ANY(obsA))
 
 //@ func CombineLatest3
 //@   props C04 C05
+//@   binds obsA obsB obsC
 //@   track call.ANY callfn.ANY
 //@   ensures [combines-A-with-the-others-in-order|C04,C05] trace(call.CombineLatestWith2(obsB, obsC), callfn.ANY(obsA))
 
 //@ func CombineLatest4
 //@   props C04 C05
+//@   binds obsA obsB obsC obsD
 //@   track call.ANY callfn.ANY
 //@   ensures [combines-A-with-the-others-in-order|C04,C05] trace(call.CombineLatestWith3(obsB, obsC, obsD), callfn.ANY(obsA))
 
 //@ func CombineLatest5
 //@   props C04 C05
+//@   binds obsA obsB obsC obsD obsE
 //@   track call.ANY callfn.ANY
 //@   ensures [combines-A-with-the-others-in-order|C04,C05] trace(call.CombineLatestWith4(obsB, obsC, obsD, obsE), callfn.ANY(obsA))
